@@ -35,6 +35,12 @@ type Case struct {
 	Procs    int        `json:"procs"`
 	Repeats  int        `json:"repeats"`
 	Running  vlib.Conf  `json:"running,omitempty"` // initial running configuration (loaded on demand by validators)
+	// tree mode: an intent of another owner that is stored (through the pipeline) before the tree is built; the
+	// validators find its paths through the intended-store index only
+	Stored vlib.Conf `json:"stored,omitempty"`
+	// tree mode: the indexes of the tree's cache client are not loaded up front, the first validator that needs
+	// them loads them on demand
+	LazyIndex bool `json:"lazy_index,omitempty"`
 }
 
 var fragPool = vlib.FragmentIdx(func(f vlib.Fragment) bool { return f.Class != "type" })
@@ -146,6 +152,7 @@ func gen(t *rapid.T) *Case {
 		genBulk(t, c.Running, true)
 	}
 	c.Mode = rapid.SampledFrom([]string{"datastore", "tree"}).Draw(t, "mode")
+	c.LazyIndex = c.Mode == "tree" && rapid.Bool().Draw(t, "lazy-index")
 	n := rapid.IntRange(1, 5).Draw(t, "nsteps")
 	if c.Mode == "tree" {
 		n = 1
@@ -185,6 +192,15 @@ func gen(t *rapid.T) *Case {
 						}
 						in.Conf["/cons/ref[name="+q+"]/viasvc"] = "gold"
 						in.Conf["/cons/ref[name="+q+"]/chk"] = "c"
+					}
+				}
+				if c.Mode == "tree" && j == 0 && rapid.Bool().Draw(t, "stored-intent") {
+					// svc entries whose mandatory leaf is held by a stored intent of another owner: the mandatory check
+					// of every entry consults the intended-store index
+					c.Stored = vlib.Conf{}
+					for x, ns := 0, rapid.IntRange(2, 14).Draw(t, "nstored"); x < ns; x++ {
+						c.Stored[fmt.Sprintf("/cons/svc[name=t%d]/kind", x)] = "gold"
+						in.Conf[fmt.Sprintf("/cons/svc[name=t%d]/note", x)] = "n"
 					}
 				}
 				if c.Mode == "tree" && len(c.Running) > 0 {
@@ -354,13 +370,15 @@ func Exec(c *Case) (nontrivial bool, labels []string, fail *vlib.Failure) {
 
 // validateTree builds a tree as lowlevelTransactionSet does, except that the running configuration is not
 // loaded into it, and validates it.
-func validateTree(ctx context.Context, h *vlib.HistEnv, st []Intent, seq bool) (outcome, error) {
+func validateTree(ctx context.Context, h *vlib.HistEnv, st []Intent, seq bool, lazyIndex bool) (outcome, error) {
 	env := vlib.MustEnv()
 	scb := schemaClient.NewSchemaClientBound(vlib.SchemaRef(), env.SchemaClient)
 	tcc := tree.NewTreeCacheClient(h.DSName, env.Cache)
 	tc := tree.NewTreeContext(tcc, scb, h.DSName)
-	if err := tc.GetTreeSchemaCacheClient().RefreshCaches(ctx); err != nil {
-		return outcome{}, err
+	if !lazyIndex {
+		if err := tc.GetTreeSchemaCacheClient().RefreshCaches(ctx); err != nil {
+			return outcome{}, err
+		}
 	}
 	root, err := tree.NewTreeRoot(ctx, tc)
 	if err != nil {
@@ -390,7 +408,24 @@ func execTree(ctx context.Context, c *Case, mk func(bool) *vlib.HistEnv) (bool, 
 	defer h.DS.Stop()
 	lab := map[string]bool{fmt.Sprintf("gomaxprocs-%d", c.Procs): true, "mode-tree": true}
 	st := c.Steps[0]
-	ref, err := validateTree(ctx, h, st, true)
+	if len(c.Stored) > 0 {
+		q, err := vlib.BuildIntentRequest(vlib.ResolvedIntent{Name: "stored", Kind: "set", Prio: 5, Explicit: c.Stored, Form: "typed"})
+		if err != nil {
+			fmt.Fprintf(os.Stderr, "HARNESS-ERROR %v\n", err)
+			os.Exit(2)
+		}
+		if rsp, err := h.SetRequest("stored", []*sdcpb.TransactionIntent{q}, nil, false); err != nil || len(vlib.IntentErrorsOf(rsp)) > 0 {
+			h.FreeSlot("stored")
+			vlib.GetStats("C17").Discard("stored-intent-refused")
+			return false, []string{"discard"}, nil
+		}
+		_ = h.DS.TransactionConfirm(ctx, "stored")
+		lab["mandatory-leaf-held-by-stored-intent"] = true
+	}
+	if c.LazyIndex {
+		lab["indexes-loaded-on-demand"] = true
+	}
+	ref, err := validateTree(ctx, h, st, true, c.LazyIndex)
 	if os.Getenv("VERIF_DEBUG") != "" {
 		fmt.Printf("DEBUG tree sequential outcome: %s\n", ref)
 	}
@@ -399,13 +434,13 @@ func execTree(ctx context.Context, c *Case, mk func(bool) *vlib.HistEnv) (bool, 
 		os.Exit(2)
 	}
 	for r := 0; r < c.Repeats+1; r++ {
-		got, err := validateTree(ctx, h, st, false)
+		got, err := validateTree(ctx, h, st, false, c.LazyIndex)
 		if err != nil {
 			fmt.Fprintf(os.Stderr, "HARNESS-ERROR %v\n", err)
 			os.Exit(2)
 		}
 		if !got.Equal(ref) {
-			return true, keys(lab), vlib.Failf("C17:concurrent-differs-from-sequential:tree", "tree with lazily loaded running values, concurrent run %d (GOMAXPROCS=%d): concurrent validation: %s\nsequential validation: %s", r+1, c.Procs, got, ref)
+			return true, keys(lab), vlib.Failf("C17:concurrent-differs-from-sequential:tree"+treeDiffClass(c, got, ref), "tree with lazily loaded running values, concurrent run %d (GOMAXPROCS=%d): concurrent validation: %s\nsequential validation: %s", r+1, c.Procs, got, ref)
 		}
 	}
 	if len(ref.Errors) > 0 {
@@ -418,6 +453,72 @@ func execTree(ctx context.Context, c *Case, mk func(bool) *vlib.HistEnv) (bool, 
 		lab["references-into-running-only-content"] = true
 	}
 	return nt, keys(lab), nil
+}
+
+// treeDiffClass names what the two outcomes disagree about: a mandatory leaf / must operand that only the
+// running configuration holds (the recorded finding), a mandatory leaf a stored intent holds, anything else.
+func treeDiffClass(c *Case, a, b outcome) string {
+	in := func(xs []string, x string) bool {
+		for _, y := range xs {
+			if y == x {
+				return true
+			}
+		}
+		return false
+	}
+	cls := map[string]bool{}
+	note := func(line string) {
+		switch {
+		case strings.Contains(line, "mandatory child"):
+			// "... mandatory child kind does not exist, path: cons/svc/s0"
+			i := strings.Index(line, "mandatory child ")
+			rest := strings.Fields(line[i+len("mandatory child "):])
+			j := strings.Index(line, "path: ")
+			if len(rest) == 0 || j < 0 {
+				cls["other"] = true
+				return
+			}
+			el := strings.Split(strings.Fields(line[j+6:])[0], "/")
+			p := "/" + strings.Join(el, "/")
+			if len(el) == 3 {
+				p = fmt.Sprintf("/%s/%s[name=%s]", el[0], el[1], el[2])
+			}
+			p += "/" + rest[0]
+			if _, ok := c.Stored[p]; ok {
+				cls["mandatory-held-by-stored-intent"] = true
+			} else if _, ok := c.Running[p]; ok {
+				cls["running-only-operand"] = true
+			} else {
+				cls["other"] = true
+			}
+		case strings.Contains(line, "must"):
+			cls["running-only-operand"] = true
+		default:
+			cls["other"] = true
+		}
+	}
+	for _, x := range append(append([]string{}, a.Errors...), a.Warn...) {
+		if !in(b.Errors, x) && !in(b.Warn, x) {
+			note(x)
+		}
+	}
+	for _, x := range append(append([]string{}, b.Errors...), b.Warn...) {
+		if !in(a.Errors, x) && !in(a.Warn, x) {
+			note(x)
+		}
+	}
+	if a.Err != b.Err {
+		cls["other"] = true
+	}
+	var ks []string
+	for k := range cls {
+		ks = append(ks, k)
+	}
+	sort.Strings(ks)
+	if len(ks) == 0 {
+		return ""
+	}
+	return ":" + strings.Join(ks, "+")
 }
 
 func hasRef(st []Intent) bool {
